@@ -51,6 +51,9 @@ def rect2polar(x, y):
     theta = atan2(x, y)
     if theta < 0:
         theta = degrees(theta) + 360
+        if theta >= 360:
+            # a rounding error west of north: the sum rounds to 360.0
+            theta = 0.0
     else:
         theta = degrees(theta)
     return r, theta
